@@ -5,6 +5,7 @@ import json, os, sys
 V = os.path.dirname(os.path.dirname(os.path.abspath(__file__)))
 sys.path.insert(0, os.path.join(V, "checklib"))
 from props import PROPS
+from manifest_texts import TEXTS
 
 NOT_READY = {}  # property id -> reason (filled for anything not claimed)
 
@@ -27,7 +28,7 @@ man = {
 for p in props:
     pid = p["id"]
     cfg = PROPS.get(pid)
-    m = (cfg or {}).get("manifest")
+    m = (cfg or {}).get("manifest") or TEXTS.get(pid)
     if not cfg or not m:
         man["not_applicable"].append({"property_id": pid, "reason": NOT_READY.get(pid, "check not yet registered in this session (machinery under construction; the technique applies — see DESIGN.md §7." + pid + ")")})
         continue
